@@ -27,7 +27,7 @@ REQUIRED = [
     "calls.Perm.occurrences_in", "calls.Perm.contains", "calls.Perm.avoids", "calls.Perm.avoids_set",
     "calls.Perm.__contains__", "calls.Perm.count_occurrences_of", "calls.Patt.count_occurrences_in",
     "calls.Patt.contained_in", "calls.Patt.avoided_by", "calls.Perm.occurrences_of",
-    "listing.exhausted", "listing.abandoned", "memo.checked", "memo.reused", "coloured.checked",
+    "listing.exhausted", "listing.abandoned", "memo.checked", "memo.reused", "coloured.checked", "derived.objects",
 ]
 MIN_NONTRIVIAL = 200
 WATCHDOG = {"quick": 1800, "thorough": 4 * 3600}
@@ -345,7 +345,38 @@ def chk_history(ctx, p, texts, schedule, fresh_every):
         CASE[0] = None
 
 
-CHECKS = {"pair": chk_pair, "multi": chk_multi, "multi_in": chk_multi_in, "colour": chk_colour, "history": chk_history}
+def chk_derived(ctx, p, t, how):
+    """History: patterns and texts that are RESULTS of other API calls (shared memoised objects, symmetries,
+    sub-permutations, unranked permutations) are searched with, after their parents have been used."""
+    P0, T0 = Perm(p), Perm(t)
+    _pair(P0, T0, full=False)
+    makers = {
+        "to_standard": lambda q: Perm.to_standard(list(q)),
+        "inverse_twice": lambda q: q.inverse().inverse(),
+        "rotate4": lambda q: q.rotate().rotate(3),
+        "unrank": lambda q: Perm.unrank(q.rank()),
+        "remove_insert": lambda q: q.insert(0, 0).remove(0) if len(q) else q,
+        "from_string": lambda q: Perm.from_string(str(q)) if 0 < len(q) <= 10 else q,
+        "compose_id": lambda q: q.compose(Perm.identity(len(q))),
+    }
+    make = makers[how]
+    P1, T1 = make(P0), make(T0)
+    ctx.count("derived.objects")
+    if tuple(P1) != tuple(P0) or tuple(T1) != tuple(T0):
+        return  # the maker itself is wrong: other properties judge that
+    _pair(P1, T1, full=True)
+    _pair(P1, T0, full=False)
+    _pair(P0, T1, full=False)
+    # sub-permutations obtained through the API, used as patterns of their parent
+    if len(T0) >= 2:
+        S = T0.remove(ctx.rng.randrange(len(T0)))
+        _pair(S, T0, full=False)
+        _pair(S, T1, full=False)
+
+
+DERIVED_HOW = ["to_standard", "inverse_twice", "rotate4", "unrank", "remove_insert", "from_string", "compose_id"]
+
+CHECKS = {"derived": chk_derived, "pair": chk_pair, "multi": chk_multi, "multi_in": chk_multi_in, "colour": chk_colour, "history": chk_history}
 
 
 # ---- workload ----------------------------------------------------------------------------
@@ -446,6 +477,8 @@ def run_rand(ctx, spec):
         if rng.random() < 0.1:
             ts = [t] + [rand_perm(rng, rng.randint(0, 8)) for _ in range(rng.randint(0, 3))]
             chk_multi_in(ctx, p, ts)
+        if rng.random() < 0.25:
+            chk_derived(ctx, p, t, rng.choice(DERIVED_HOW))
     for _ in range(spec["col"]):
         k, n = rng.randint(1, 4), rng.randint(1, 9)
         p, t = planted(rng, k, n)
